@@ -109,7 +109,33 @@ def check(case):
 
 @st.composite
 def cases(draw, max_feats=12):
-    return {"model": draw(S.model_specs(S.AFM, 1, max_feats)), "cycles": draw(st.integers(3, 4))}
+    m = draw(S.model_specs(S.AFM, 1, max_feats))
+    if draw(st.integers(0, 7)) == 0:
+        _concatenation_twins(draw, m)
+    return {"model": m, "cycles": draw(st.integers(3, 4))}
+
+
+def _concatenation_twins(draw, m):
+    """Two attributes whose 'feature name + attribute name' spell the same text (Pay.palfee / Paypal.fee): keys built
+    by gluing the two names together cannot tell them apart."""
+    feats = [f for f, _ in build.iter_feats(m["root"])]
+    taken = {f["name"] for f in feats}
+    host = draw(st.sampled_from(feats))
+    suffix = draw(st.sampled_from(["pal", "x", "a1", "fee", "q"]))
+    tail = draw(st.sampled_from(["fee", "cost", "w", "a"]))
+    new_name = host["name"] + suffix
+    if new_name in taken or any(a["name"] in (suffix + tail, tail) for a in host["attrs"]):
+        return
+    twin = build.feat(new_name)
+    val = lambda: {"name": None, "ranges": [[0, draw(st.integers(1, 9))]], "elements": None, "default": "1", "null": "0"}   # noqa: E731
+    a1, a2 = val(), val()
+    a1["name"], a2["name"] = suffix + tail, tail
+    host["attrs"].append(a1)
+    twin["attrs"].append(a2)
+    parent = draw(st.sampled_from(feats))
+    parent["rels"].append(build.rel(0, 1, [twin]))
+    if draw(st.booleans()):          # the longer name first in the document
+        parent["rels"].insert(0, parent["rels"].pop())
 
 
 def _precedence_matters(e):
@@ -151,7 +177,15 @@ def classes(case):
     return out
 
 
+@st.composite
+def big_cases(draw):
+    """Models of several hundred features (files of tens of kilobytes): block-wise or incremental readers/writers."""
+    return {"model": draw(S.model_specs(S.AFM, 200, 400)), "cycles": 3}
+
+
 SUBS = [
+    Sub("big-models", check, gen=lambda tier: big_cases(), nontrivial=lambda case: True, classes=lambda case: {"big-model"},
+        n={"quick": 2, "thorough": 30}, shards={"quick": 8, "thorough": 16}),
     Sub("roundtrip", check, gen=lambda tier: cases(), nontrivial=nontrivial, classes=classes,
         n={"quick": 150, "thorough": 1500},
         essential=["attr:ranges", "attr:elements", "multi-relations-parent", "rel:cardinal", "precedence-matters",
